@@ -135,6 +135,7 @@ def run(ctx):
             k += 1
         closure = [((0, 0, 1), "lru"), ((0, 0, 2), "lru"), ((0, 0, 2), "plru"), ((0, 0, 3), "lru"), ((1, 0, 2), "lru"), ((1, 0, 2), "plru"),
                    ((0, 0, 4), "plru"), ((0, 0, 4), "lru"), ((1, 0, 1), "lru"), ((1, 1, 2), "lru"), ((0, 1, 2), "plru"), ((2, 0, 1), "lru")]
+    cachebfs.explore(ctx, Cfg(12, 1, 1, ("wt", "wb")[seed % 2], "lru", 1, "word", False, "base"), WANT, 1 if ctx.quick else 2)
     for g, policy in closure:
         for kind in ("wb", "wt"):
             cachebfs.explore(ctx, Cfg(*g, kind, policy, pens[k % 3], "control", False, "base", True), WANT, 60)
